@@ -188,5 +188,27 @@ def full (t : Table α) : Bool := (List.range t.rows).all t.known
 def neg [Neg α] (t : Table α) : Table α :=
   { t with lo := fun c => - t.hi c, hi := fun c => - t.lo c }
 
+/-- `__add__`: asserts that both games are fully known and have the same number of players; the sum is
+    a copy of `self` whose two bound columns are increased by the other game's (`new._values[:, 1:3] +=
+    other._values[:, 1:3]`); rows outside the table do not exist in numpy and are left alone here. -/
+def add [Add α] (t u : Table α) : Except Err (Table α) :=
+  if t.full && u.full && t.n == u.n then
+    .ok { t with lo := fun c => if c < t.rows then t.lo c + u.lo c else t.lo c,
+                 hi := fun c => if c < t.rows then t.hi c + u.hi c else t.hi c }
+  else .error .assert
+
+/-- the comparison of one row of `self._values == other._values` (all three cells) -/
+def rowEq [DecidableEq α] (t u : Table α) (c d : Nat) : Bool :=
+  t.known c == u.known d && decide (t.lo c = u.lo d) && decide (t.hi c = u.hi d)
+
+/-- `__eq__` with another game: `bool(np.all(self._values == other._values))`.  Equal shapes compare row by
+    row; numpy broadcasts a one-row table (0 players) against any other; every other shape mismatch raises
+    ValueError ("operands could not be broadcast together"). -/
+def eqv [DecidableEq α] (t u : Table α) : Except Err Bool :=
+  if t.rows = u.rows then .ok ((List.range t.rows).all fun c => rowEq t u c c)
+  else if t.rows = 1 then .ok ((List.range u.rows).all fun c => rowEq t u 0 c)
+  else if u.rows = 1 then .ok ((List.range t.rows).all fun c => rowEq t u c 0)
+  else .error .value
+
 end Table
 end ICG
